@@ -16,7 +16,7 @@ Definition fcode (f : option finding) : Z :=
   | Some F_fetch_star_first => 4 | Some F_fetch_reversed => 5 | Some F_fetch_beyond => 6
   | Some F_search_star => 8 | Some F_search_comma => 9
   | Some F_search_star_first => 10 | Some F_search_reversed => 11 | Some F_search_beyond => 12
-  | Some F_search_huge => 13 | Some F_uidsearch_shape => 14 | Some F_deleted_case => 18
+  | Some F_search_huge => 13 | Some F_uidsearch_shape => 14
   | Some F_noop_notices => 17
   end.
 
@@ -87,7 +87,7 @@ Definition case_expunge (pre : list (Z * str)) (notices post : list Z) : Z :=
   pack (zlist_eqb ns notices && zlist_eqb (map m_uid mb') post)
        (zlist_eqb (replay notices (map m_uid mb)) post
         && zlist_eqb post (map m_uid (filter (fun m => negb (has_deleted (m_flags m))) mb)))
-       true (classify_expunge mb).
+       true None.
 Definition case_uidexpunge (s : str) (pre : list (Z * str)) (notices post : list Z) (ast : option seqset) : Z :=
   let mb := mk_mbox pre in
   let '(ns, mb') := handle_uid_expunge s mb in
@@ -96,12 +96,12 @@ Definition case_uidexpunge (s : str) (pre : list (Z * str)) (notices post : list
         && with_ast ast true (fun a =>
              let sel := addressed_uids a (map m_uid mb) in
              zlist_eqb post (map m_uid (filter (fun m => negb (existsb (Z.eqb (m_uid m)) sel && has_deleted (m_flags m))) mb))))
-       (ast_print_ok ast s) (classify_expunge mb).
+       (ast_print_ok ast s) None.
 Definition case_close (pre : list (Z * str)) (post : list Z) : Z :=
   let mb := mk_mbox pre in
   pack (zlist_eqb (map m_uid (handle_close mb)) post)
        (zlist_eqb post (map m_uid (filter (fun m => negb (has_deleted (m_flags m))) mb)))
-       true (classify_expunge mb).
+       true None.
 Definition case_noop (old new notices : list Z) : Z :=
   pack (zlist_eqb (noop_notices (Z.of_nat (length old)) (Z.of_nat (length new))) notices)
        (zlist_eqb (replay notices old) new) true (classify_noop old new).
